@@ -474,9 +474,12 @@ def check_update_context(ka: int, kaa: int, kab: int, kb: int, sub: int, u: int,
     pre: 0 <= sub < B.NSUB
     pre: 0 <= u <= 7
     pre: 0 <= dflt <= 2
+    pre: (0 if dflt == 0 else 1) + (1 if skip else 0) + (1 if rais else 0) <= 1
     pre: h.in_shard(u + 8 * (ka % 2) + 5 * sub)
     post: _
     """
+    # (combinations of more than one of default / skip_on_missing /
+    # raise_on_missing are rejected at construction: check_update_context_args)
     subcontext = ["a.b", "b", "c.a", "a", "a.a", "b.a"][sub]
     update = UPDATES[u]
     value = True if value else False
@@ -567,6 +570,40 @@ def check_update_context(ka: int, kaa: int, kab: int, kb: int, sub: int, u: int,
         if UPDATES[u] != {"x": 1}:
             return h.ok(False)
     return h.ok(True)
+
+
+def check_update_context_args(sub: int, u: int, value: bool, dflt: int, skip: bool, rais: bool,
+                              recursively: bool) -> bool:
+    """
+    pre: 0 <= sub <= 5
+    pre: 0 <= u <= 7
+    pre: 0 <= dflt <= 2
+    post: _
+    """
+    # which keyword combinations UpdateContext accepts (documented
+    # LenaValueError otherwise), for every update value and subcontext
+    subcontext = ["a.b", "b", "c.a", "a", "a.a", "b.a"][sub]
+    update = UPDATES[u]
+    value = True if value else False
+    skip = True if skip else False
+    rais = True if rais else False
+    kwargs = dict(value=value, skip_on_missing=skip, raise_on_missing=rais,
+                  recursively=True if recursively else False)
+    has_default = dflt > 0
+    if has_default:
+        kwargs["default"] = [None, 9, {"z": 1}][dflt]
+    n_active = int(has_default) + int(skip) + int(rais)
+    simple = not isinstance(update, str)
+    is_ctx_value = (not simple) and value and update in ("{{a.a}}", "{{b}}")
+    invalid = (n_active > 1 or (simple and n_active > 0)
+               or ((not simple) and value and not is_ctx_value)
+               or ((not simple) and (not value) and has_default))
+    with fast_jinja():
+        try:
+            UpdateContext(subcontext, update, **kwargs)
+        except LenaValueError:
+            return h.ok(invalid)
+    return h.ok(not invalid)
 
 
 def check_delete_context(ka: int, kaa: int, kab: int, kb: int, p: int, form: int,
@@ -667,6 +704,9 @@ CONDITIONS = [
                 "check_update_context(3, 3, 1, 1, 1, 2, True, 0, False, False, True, True)",
                 "check_update_context(3, 1, 1, 1, 1, 4, False, 0, False, False, True, True)",
                 "check_update_context(0, 0, 0, 0, 1, 4, False, 0, False, True, True, False)"]),
+    dict(fn="check_update_context_args", budget=(80, 300),
+         smoke=["check_update_context_args(0, 4, False, 1, True, False, True)",
+                "check_update_context_args(1, 2, True, 2, False, False, True)"]),
     dict(fn="check_delete_context", shards=(4, 16), budget=(70, 900),
          smoke=["check_delete_context(3, 1, 1, 1, 2, 0, True)", "check_delete_context(3, 1, 1, 1, 7, 1, True)"]),
     dict(fn="check_format_update_with", shards=(4, 8), budget=(70, 900),
